@@ -112,6 +112,14 @@ class EngineBase:
                     ax.append(z3.ForAll([c], z3.Implies(subclass(c, cls_const(a)), subclass(c, cls_const(b))),
                                         patterns=[subclass(c, cls_const(a))]))
         ax.append(z3.ForAll([c], subclass(c, c), patterns=[subclass(c, c)]))
+        # instance-layout rule of CPython: two classes that each add their own slots/fields and are not related
+        # cannot have a common subclass ("multiple bases have instance lay-out conflict")
+        solid = [n for n in known if n in self.reg.models and self.reg.models[n].fields and self._is_repo_class(n)]
+        for i, a in enumerate(solid):
+            for b in solid[i + 1:]:
+                if not self.static_subclass(a, b) and not self.static_subclass(b, a):
+                    ax.append(z3.ForAll([c], z3.Not(z3.And(subclass(c, cls_const(a)), subclass(c, cls_const(b)))),
+                                        patterns=[z3.MultiPattern(subclass(c, cls_const(a)), subclass(c, cls_const(b)))]))
         ax.append(cls_of(NULL) == cls_const("NoneType"))
         self._class_axioms = ax
         return ax
